@@ -315,7 +315,7 @@ fn fmt_strategy() -> BoxedStrategy<Fmt> {
             let digits = gen::digits_of(&spec);
             let nd = digits.len() as i64;
             // the tail families place their tail at this cut (see gen::digits_of)
-            let cut = if nd >= 3 { 1 + (spec.aux as i64 % (nd - 2)) } else { 1 };
+            let cut = gen::tail_cut(&spec) as i64;
             let (scale, prec) = match (aim, prec) {
                 // integers whose padding sits at the configured limit
                 (0, Some(n)) => (-((pad - n as i64 - 1 + d).max(0)), Some(n)),
